@@ -589,10 +589,12 @@ fn c19_judge(c: &C19Case, obs: &mut Obs) -> Result<(), String> {
                     let mut mkey = key;
                     let mut acted = h.acted_key;
                     let mut restart: Option<u8> = None;
-                    let chain_step = |mkey: &mut u8, acted: &Option<u8>| {
-                        // the chain fires only if OUR animator ended in the previous frame, while the
+                    let chain_step = |mkey: &mut u8, acted: &Option<u8>, restarted_already: bool| {
+                        // the chain fires only if OUR animator ended in the previous frame and is still
+                        // in that ended state when the chain looks at it (a restart by the selector
+                        // earlier in the same frame - a user key change - takes precedence), while the
                         // key is still the one the selector acted on, and the chain has an entry for it
-                        if a_ended_last_frame && st0 == AnimationState::Ended && *acted == Some(*mkey) {
+                        if a_ended_last_frame && st0 == AnimationState::Ended && !restarted_already && *acted == Some(*mkey) {
                             if let Some(next) = chain_map.get(mkey) {
                                 *mkey = *next;
                                 return true;
@@ -608,11 +610,11 @@ fn c19_judge(c: &C19Case, obs: &mut Obs) -> Result<(), String> {
                         }
                     };
                     if h.chain_first {
-                        fired |= chain_step(&mut mkey, &acted);
+                        fired |= chain_step(&mut mkey, &acted, false);
                         select_step(&mkey, &mut acted, &mut restart);
                     } else {
                         select_step(&mkey, &mut acted, &mut restart);
-                        fired |= chain_step(&mut mkey, &acted);
+                        fired |= chain_step(&mut mkey, &acted, restart.is_some());
                     }
                     // animator as seen by `animate` in this frame
                     let (tl_now, st_in, pos_in): (Option<TlInForce>, AnimationState, Duration) = match restart {
